@@ -29,7 +29,7 @@ ASSUMPTIONS = [
     "a partial frame cut by an injected write error is attributed by the reference encoder (ref/encode.py)",
     "the +/-1 step and control-method flip have no public entry point; they are exercised at socket level with the non-idempotent policy and through the API's private command helper when it exists",
 ]
-PROBES = ["c02.close_window_class", "c02.write_into_closing_transport", "c02.fault_hit_pending", "c02.retry_seen", "c02.expired_after_fault", "c02.reconnect_at_exact_expiry", "c02.single_fault_class",
+PROBES = ["c02.chained_sends", "c02.close_window_class", "c02.write_into_closing_transport", "c02.fault_hit_pending", "c02.retry_seen", "c02.expired_after_fault", "c02.reconnect_at_exact_expiry", "c02.single_fault_class",
           "c02.api_class", "c02.toggle_under_fault", "c02.helper_step", "c02.budget_exhausted"]
 EXHAUSTIVE = False
 
@@ -97,6 +97,13 @@ def generate(rng, index: int, tier: str) -> dict:
         life = sendq.policy_numbers(pol)[1]
         lifetimes.append((at, life))
         sends.append({"at": at, "op": "user.send", "msg": d, "policy": pol, "yields": rng.choice([0, 0, 1])})
+    if single and len(sends) >= 2 and rng.random() < 0.4:
+        # one application task awaiting its commands one after the other (no yield of its own between them): the commands
+        # behind the one whose write fails are submitted the moment that call returns
+        sends.sort(key=lambda x: x["at"])
+        head = dict(sends[0], at=t0)
+        head["then"] = [{"msg": x["msg"], "policy": x["policy"]} for x in sends[1:]]
+        sends = [head]
     tl += sends
     expiry_anchors = [a + l for a, l in lifetimes]
     if single:
@@ -240,12 +247,26 @@ def execute(sc: dict) -> dict:
         if any(l.t_accept == deadline for l in w.net.links):
             probes["c02.reconnect_at_exact_expiry"] = 1
     # single transient failure: the idempotent head message is re-sent first on the next connection
+    if any(st.get("then") for st in sc["timeline"]):
+        probes["c02.chained_sends"] = 1
     if sc.get("class") == "single":
         probes["c02.single_fault_class"] = 1
         failed = [e for e in w.trace.events if e[2] == "fault.fired" and e[3].get("k") == "tcp.write_error"]
         # another task wrote a second message into the already failed transport: two victims of one
         # failure, the property's "re-sent first" does not say which of them leads
-        collateral = any(e[2] == "tx.dropped" for e in w.trace.events)
+        collateral = False
+        if len(failed) == 1:
+            fseq0 = failed[0][0]
+            sends = [c for c in w.calls if c["op"] == "user.send" and c["seq_call"] is not None]
+            vc = max((c for c in sends if c["seq_call"] < fseq0 and (c["seq_ret"] is None or c["seq_ret"] > fseq0)), key=lambda c: c["seq_call"], default=None)
+            v_end = vc["seq_ret"] if vc is not None and vc["seq_ret"] is not None else 10**12
+            # a call that runs concurrently with the failing one (it starts before the failing call has finished dealing with the
+            # error) may write into the transport that has just failed: a second victim of the same failure.  A call that
+            # starts after the failing call returned is not: by then the client knows the connection is gone
+            overl = [c for c in sends if c is not vc and fseq0 < c["seq_call"] < v_end]
+            if overl:
+                first_o = min(c["seq_call"] for c in overl)
+                collateral = any(e[2] == "tx.dropped" and e[0] > first_o for e in w.trace.events)
         if len(failed) == 1 and not collateral:
             flink = failed[0][3]["link"]
             fseq = failed[0][0]
